@@ -189,6 +189,7 @@ def _run_ref(params, values):
 
 OPTS = [("html", "bool"), ("typographer", "bool"), ("breaks", "bool"), ("xhtmlOut", "bool"), ("linkify", "bool"),
         ("langPrefix", "str"), ("maxNesting", "int"), ("inline_definitions", "bool"), ("store_labels", "bool")]
+ATTR_OPTS = ("maxNesting", "html", "linkify", "typographer", "quotes", "xhtmlOut", "breaks", "langPrefix", "highlight")
 PROBES = ["<b>a</b> \"q\" -- (c)\nb\n\n```py\nx\n```\n\n[r]: /u\n\n[r] ![i](u) ***\n\n> > > - a\n", "a  \nb *c* <i>\n\n---\n"]
 
 
@@ -217,13 +218,19 @@ def _run_opt(params, values):
         pass
     r1 = MarkdownIt(params["cfg"]["preset"], {name: val})
     b.options[name] = val
-    setattr(c.options, name, val)
+    has_attr = name in ATTR_OPTS  # inline_definitions/store_labels have no attribute accessor: two routes only
+    if has_attr:
+        setattr(c.options, name, val)
+    else:
+        c.options[name] = val
     recs = []
     o1, o2, o3 = dict(r1.options), dict(b.options), dict(c.options)
     if not (o1 == o2 == o3):
         recs.append({"key": "option-routes-differ", "option": name, "what": "options mapping"})
-    if not (getattr(r1.options, name) == getattr(b.options, name) == getattr(c.options, name) == val):
+    if has_attr and not (getattr(r1.options, name) == getattr(b.options, name) == getattr(c.options, name) == val):
         recs.append({"key": "option-routes-differ", "option": name, "what": "attribute read-back"})
+    if not (r1.options[name] == b.options[name] == c.options[name] == val):
+        recs.append({"key": "option-routes-differ", "option": name, "what": "item read-back"})
     outs = []
     for p in PROBES:
         try:
@@ -244,9 +251,10 @@ HARNESSES = {
     "option_routes": Harness("option_routes", _opt_free, _run_opt, functions=("MarkdownIt.__init__", "MarkdownIt.configure", "OptionsDict")),
 }
 
+# free characters sit in titles, texts and following lines - never inside a label (symbolic labels cost ~27 s per path, see DESIGN.md)
 REF_SCAFFOLDS = [
-    ["[a]: /x '", {"v": "a"}, "'\n\n[a]\n"], ["[a]: /x\n[", {"v": "a"}, "]: /y\n\n[a] [b]\n"], ["- [a]: /x\n\n![", {"v": "a"}, "][a]\n"],
-    ["[a", {"v": "a"}, "]: /x\n\n[ab][] [a]\n"], ["> [a]: /x\n> ", {"v": "a"}, "\n\n[a][a]\n"], ["[a]: /x\n[a]: /y\n", {"v": "a"}, "[a]\n"],
+    ["[a]: /x '", {"v": "a"}, "'\n\n[a]\n"], ["[a]: /x\n[b]: /y \"", {"v": "a"}, "\"\n\n[a] [b]\n"], ["- [a]: /x\n\n![i", {"v": "a"}, "][a]\n"],
+    ["[a]: /x\n\n[t", {"v": "a"}, "][a] [a][]\n"], ["> [a]: /x\n> ", {"v": "a"}, "\n\n[a][a]\n"], ["[a]: /x\n[a]: /y\n\n", {"v": "a"}, " [a]\n"],
 ]
 
 
@@ -270,17 +278,22 @@ def jobs(tier, seed):
                 continue
             cfg = dict(base, disable=[rule])
             for sc in scs:
-                jobs.append({"harness": "rule_off", "params": {"cfg": cfg, "rule": rule, "scaffold": sc, "spec": spec, "name": f"off-{rule}"},
+                sp_ = spec
+                if any(isinstance(p, str) and p.endswith("](x") for p in sc) or rule == "autolink":
+                    from ..mdutil import urlish
+
+                    sp_ = dict(spec, a=dict(NOCR, extra=urlish("a")))
+                jobs.append({"harness": "rule_off", "params": {"cfg": cfg, "rule": rule, "scaffold": sc, "spec": sp_, "name": f"off-{rule}"},
                              "weight": 3, "cpu_cap": 900, "wall_cap": 1500})
             if tier == "thorough":
                 _sharded(jobs, "rule_off", {"cfg": cfg, "rule": rule, "scaffold": free_doc(3, "\n"), "name": f"off-{rule}-free"}, weight=10, spec=spec)
     k = 2 if tier == "quick" else 3
     _sharded(jobs, "rule_off", {"cfg": ZERO, "rule": "zero", "scaffold": free_doc(k + 1, "\n"), "name": "zero"}, weight=5, spec=spec)
     _sharded(jobs, "rule_off", {"cfg": JS, "rule": "html-option", "scaffold": free_doc(k, "\n"), "name": "html-off"}, weight=6, spec=spec)
-    jobs.append({"harness": "rule_off", "params": {"cfg": JS, "rule": "html-option", "scaffold": ["<", {"v": "a"}, {"v": "b"}, ">\n"], "spec": spec, "name": "html-off-tag"},
+    jobs.append({"harness": "rule_off", "params": {"cfg": JS, "rule": "html-option", "scaffold": ["<", {"v": "a"}, "b>\n"] if tier == "quick" else ["<", {"v": "a"}, {"v": "b"}, ">\n"], "spec": spec, "name": "html-off-tag"},
                  "weight": 4, "cpu_cap": 900, "wall_cap": 1500})
     jobs.append({"harness": "rule_off", "params": {"cfg": dict(CM, options={"html": False}), "rule": "html-option",
-                                                    "scaffold": ["<div", {"v": "a"}, ">\n", {"v": "b"}, "\n"], "spec": spec, "name": "html-off-block"},
+                                                    "scaffold": ["<div", {"v": "a"}, ">\nx\n"] if tier == "quick" else ["<div", {"v": "a"}, ">\n", {"v": "b"}, "\n"], "spec": spec, "name": "html-off-block"},
                  "weight": 4, "cpu_cap": 900, "wall_cap": 1500})
     # (2) conservative extensions
     kx = 2 if tier == "quick" else 3
@@ -288,7 +301,7 @@ def jobs(tier, seed):
                                  "scaffold": free_doc(kx, "\n"), "name": "ext-table"}, weight=10, spec=spec)
     _sharded(jobs, "extension", {"cfg": CM, "cfg_on": dict(CM, enable=["strikethrough"]), "ext": "strikethrough", "trigger": "~~",
                                  "scaffold": free_doc(kx, "\n"), "name": "ext-strike"}, weight=10, spec=spec)
-    for sc in (["a\n", {"v": "a"}, "-\nc\n"], ["~", {"v": "a"}, "~ x ~", {"v": "b"}, "~\n"], ["- a\n  ", {"v": "a"}, "-\n"]):
+    for sc in (["a\n", {"v": "a"}, "-\nc\n"], ["~", {"v": "a"}, "~ x ~y~\n"], ["- a\n  ", {"v": "a"}, "-\n"]):
         jobs.append({"harness": "extension", "params": {"cfg": CM, "cfg_on": dict(CM, enable=["table", "strikethrough"]), "ext": "both",
                                                          "trigger": "|", "scaffold": sc, "spec": spec, "name": "ext-ctx"},
                      "weight": 4, "cpu_cap": 900, "wall_cap": 1500})
